@@ -3,9 +3,12 @@ import copy
 from . import core, eng, engcheck, sgen, surfcheck, surface as S
 
 THEOREMS = ["products_correct", "desugarFlat_correct", "desugar_correct", "desugarRule_isSome", "cons_split_heads", "consS_fact", "desugarRules_correct", "derivable_desugar",
-            "stdOps_sugarSound", "stdOps_varsSound", "documented", "f10_capture"]
+            "stdOps_sugarSound", "stdOps_varsSound", "documented", "f10_capture",
+            "surface_to_physical", "desugarRule_desugared", "desugarRules_desugared", "surface_to_physical'"]
 TRUSTED = ["Lean 4.33.0 kernel", "axioms: propext, Classical.choice, Quot.sound only (audited per theorem)",
-           "statement: Props/C07.lean",
+           "statement: Props/C07.lean; Props/C07Phys.lean + Props/C07Desugared.lean compose it with the physical-index engine theorem of C01: the code generated for the desugared rules, "
+           "run over its hash indices, ends with the least model of the DOCUMENTED meaning of the surface rules (surface_to_physical'); the output of the desugaring model is a fixed "
+           "point of rule_desugar_repeated_vars (desugarRules_desugared), so that hypothesis of the engine theorems is discharged for programs coming out of the front-end model",
            "tools/vlib/surface.py expand_spec is the reading of the documentation the oracle uses (written against README.MD / the statement, not against ascent_syntax.rs)",
            "tie B: each generated surface program is compiled twice with the real macros (sugared text, printed documented expansion) and run on the same inputs; "
            "both must equal the naive least model of the expansion; the Lean model of the implemented desugaring pipeline + engine model runs the same histories",
@@ -268,4 +271,4 @@ def check(tier, replay=None):
 
 
 import os
-MODULES = ["AscentVerif.Props.C07"] if os.path.exists(os.path.join(core.LEAN, "AscentVerif", "Props", "C07.lean")) else []
+MODULES = ["AscentVerif.Props.C07", "AscentVerif.Props.C07Phys", "AscentVerif.Props.C07Desugared"] if os.path.exists(os.path.join(core.LEAN, "AscentVerif", "Props", "C07.lean")) else []
